@@ -45,6 +45,9 @@ EXPLANATION = (
     "((1 << L) - 1) << S; a value is rejected whenever the field's length is "
     "known and the value does not fit. R4-R6: call-order, allocation-site "
     "and must-pass-through facts.")
+EXPLANATION += (
+    " R2 also checks that __call__ builds the derived instance with "
+    "self.length and self.fields.")
 NOT_DECIDED = [
     "non-overlap for every hierarchy shape (depends on the contents of the "
     "field tree: which fields potential_fields/enabled_fields return)",
